@@ -11,7 +11,7 @@ ROUND_EFFECTS = ("sbatch", "squeue", "lock_acquire", "lock_release", "write_open
 
 
 def h_fault(shapes=("chain3",), bss=(1,), maxns=(None,), kinds=("kill", "kill_node", "edquot", "lock_timeout", "squeue", "sbatch"),
-            lock_modes=("M1", "M2"), later_attempts=2, max_steps=60, max_recoveries=4):
+            lock_modes=("M1", "M2"), later_attempts=2, max_steps=80, max_recoveries=None):
     def harness(ex):
         from world.world import Hang
 
@@ -107,7 +107,8 @@ def h_fault(shapes=("chain3",), bss=(1,), maxns=(None,), kinds=("kill", "kill_no
                 if c is not None and c.is_complete():
                     break
                 recoveries += 1
-                if recoveries > max_recoveries:
+                # with max_nodes=1 every batch needs its own recovery round; one more may be lost to the fault itself
+                if recoveries > (max_recoveries if max_recoveries is not None else N + 4):
                     break
                 w.now += 10
                 w.user(["jade", "try-submit-jobs", out])
